@@ -852,7 +852,7 @@ func (e *Executor) Execute(ctx context.Context, m File) (err error) {
 		// If the file has been applied partially before, check if the
 		// applied statements have not changed.
 		for i := 0; i < r.Applied; i++ {
-			if i > len(sums) || sums[i] != strings.TrimPrefix(r.PartialHashes[i], "h1:") {
+			if i >= len(sums) || sums[i] != strings.TrimPrefix(r.PartialHashes[i], "h1:") {
 				err = HistoryChangedError{m.Name(), i + 1}
 				e.log.Log(LogError{Error: err})
 				return err
